@@ -225,6 +225,9 @@ impl<T> TransientSource<T> {
             TransientSourceState::Disabled(_) | TransientSourceState::Register(_) => {
                 TransientSourceState::None
             }
+            // The pending replacement was never registered and can be dropped,
+            // but the old source still has to be unregistered.
+            TransientSourceState::Replace { old, .. } => TransientSourceState::Remove(old),
             mut state => {
                 state.replace_state(TransientSourceState::Remove);
                 state
@@ -248,6 +251,9 @@ impl<T> TransientSource<T> {
             TransientSourceState::Disabled(_) | TransientSourceState::Register(_) => {
                 TransientSourceState::Register(new)
             }
+            // Only the pending replacement is replaced (it was never
+            // registered), the old source still has to be unregistered.
+            TransientSourceState::Replace { old, .. } => TransientSourceState::Replace { new, old },
             mut state => {
                 state.replace_state(|old| TransientSourceState::Replace { new, old });
                 state
